@@ -866,6 +866,20 @@ def c06(tier, seed):
     # length 4, 5 in thorough) exported by TLC and replayed: the model says which calls must be accepted and at which size,
     # TraceDecoder demands the same of the code (FormatKnown, ExpectOk) and compares every picture in pixel mode
     run.model_check("MCFormat", "MCFormat-current", workers=2)
+    #     ... for histories of ANY length: inductive invariant discharged by Apalache (base, step, and IndInit is satisfiable)
+    ind = []
+    for name, args in (("base", ["--init=Init", "--inv=IndInv", "--length=0"]), ("step", ["--init=IndInit", "--inv=IndInv", "--length=1"]),
+                       ("indinit-satisfiable", ["--init=IndInit", "--inv=NotVacuous", "--length=0"])):
+        outcome, secs, tail = core.run_apalache("FormatInd", args, run.work)
+        want = "Error" if name == "indinit-satisfiable" else "NoError"
+        ind.append({"obligation": name, "outcome": outcome, "expected": want, "wall_s": round(secs, 1)})
+        if outcome != want:
+            if outcome == "Error" and name in ("base", "step"):
+                run.impl_diags.append(({"l": 0, "cls": "IMPL", "what": "inductive-invariant-violated", "sig": "size-model-invariant-not-inductive",
+                                        "detail": name}, [{"op": "model", "module": "FormatInd", "args": args}]))
+            else:
+                run.tool_errors.append("apalache %s: outcome %s\n%s" % (name, outcome, tail))
+    run.notes["apalache_inductive_invariant_size_model"] = ind
     fgens = run_gen_bfs(run, "MCFormat", "MCFormatGen" if not thorough else "MCFormatGen5")
     fgens = [g for g in fgens if not any(o[0] == "I" and o[1] == 0 for o in g["ops"])]      # an intra picture without a size is
     run.notes["size_model_histories_replayed"] = len(fgens)                                   # no valid picture: not claimed
